@@ -3,18 +3,21 @@
 (* are well-defined (at most one answer) on every well-formed span tree with  *)
 (* at most MaxN nodes on the grid 0..G, and the loops of fst.py               *)
 (* (find_in_loc / find_contains_loc / find_loc, transcribed below as AlgIn /  *)
-(* AlgC / AlgLoc) compute them - except for the documented 'top' mode, whose  *)
-(* deviation is characterised exactly (TopDeviation).                         *)
+(* AlgC / AlgLoc) compute them, in every mode, without named deviations.      *)
 (*                                                                            *)
 (* Well-formed = what C06 states about locations: children inside parents     *)
-(* (Nested), siblings in syntax order without overlap (Ordered).  Trees are   *)
-(* built node by node in pre-order (AddNode), then one query is asked (Ask).  *)
+(* (Nested), siblings in syntax order without overlap (Ordered) - both on the *)
+(* BOUNDING location: a node may have DECORATOR children (dec[n] = TRUE),     *)
+(* which come first in syntax order and lie BEFORE the node's own `loc`       *)
+(* (inside the bounding location of the node, hence inside the grandparent).  *)
+(* Trees are built node by node in pre-order (AddNode / AddDeco), then one    *)
+(* query is asked (Ask).                                                      *)
 EXTENDS LocFind, TLC
 
 CONSTANTS MaxN, G, AllowEmpty      \* AllowEmpty: zero-length node spans (pfst: empty `arguments`)
 
-VARIABLES par, sp, frm, r, phase
-vars == <<par, sp, frm, r, phase>>
+VARIABLES par, sp, dec, frm, r, phase
+vars == <<par, sp, dec, frm, r, phase>>
 
 Spans == {<<s, e>> : s \in 0..G, e \in 0..G} \cap {x \in (0..G) \X (0..G) : x[1] <= x[2]}
 NodeSpans == {x \in Spans : AllowEmpty \/ x[1] < x[2]}
@@ -22,27 +25,50 @@ NodeSpans == {x \in Spans : AllowEmpty \/ x[1] < x[2]}
 N == Len(par)
 RightPath == {N} \cup Ancs(par, N)
 Kids(p) == {c \in 1..N : par[c] = p}
+Decos(p) == {c \in Kids(p) : dec[c]}
 MaxOf(S) == CHOOSE x \in S : \A y \in S : y <= x
+MinOf(S) == CHOOSE x \in S : \A y \in S : x <= y
+(* start of the bounding location: the first decorator, else the node itself   *)
+BStart(n) == IF Decos(n) = {} THEN sp[n][1] ELSE sp[MinOf(Decos(n))][1]
 
-Init == /\ par = <<0>> /\ sp \in {<<x>> : x \in NodeSpans}
+Init == /\ par = <<0>> /\ sp \in {<<x>> : x \in NodeSpans} /\ dec = <<FALSE>>
         /\ frm = 1 /\ r = <<0, 0>> /\ phase = "build"
 
+(* an ordinary child: inside the parent's loc, after the parent's previous child *)
 AddNode == /\ phase = "build" /\ N < MaxN
            /\ \E p \in RightPath, x \in NodeSpans :
                 /\ Within(x, sp[p])                                              \* Nested
-                /\ Kids(p) # {} => sp[MaxOf(Kids(p))][2] <= x[1]                 \* Ordered
-                /\ par' = Append(par, p) /\ sp' = Append(sp, x)
+                /\ Kids(p) \ Decos(p) # {} => sp[MaxOf(Kids(p))][2] <= x[1]      \* Ordered
+                /\ par' = Append(par, p) /\ sp' = Append(sp, x) /\ dec' = Append(dec, FALSE)
+           /\ UNCHANGED <<frm, r, phase>>
+
+(* a decorator of p: only while p has no ordinary child yet (decorators come first),  *)
+(* a proper span that ends before p's loc starts, after p's previous decorator, after *)
+(* p's previous sibling and inside p's parent (p's bounding location is nested there); *)
+(* decorators are expressions: they are not decorated themselves                       *)
+InDeco(n) == dec[n] \/ \E a \in Ancs(par, n) : dec[a]
+PrevSib(p) == {c \in Kids(par[p]) : c < p /\ ~dec[c]}
+AddDeco == /\ phase = "build" /\ N < MaxN
+           /\ \E p \in RightPath, x \in NodeSpans :
+                /\ ~InDeco(p) /\ Kids(p) = Decos(p)
+                /\ sp[p][1] < sp[p][2]                    \* a decorated node is a def / class: never zero-length
+                /\ x[1] < x[2] /\ x[2] <= sp[p][1]
+                /\ Decos(p) # {} => sp[MaxOf(Decos(p))][2] <= x[1]
+                /\ par[p] # 0 => /\ sp[par[p]][1] <= x[1]
+                                 /\ PrevSib(p) # {} => sp[MaxOf(PrevSib(p))][2] <= x[1]
+                /\ par' = Append(par, p) /\ sp' = Append(sp, x) /\ dec' = Append(dec, TRUE)
            /\ UNCHANGED <<frm, r, phase>>
 
 Ask == /\ phase = "build"
        /\ \E f \in 1..N, x \in Spans : frm' = f /\ r' = x
-       /\ phase' = "asked" /\ UNCHANGED <<par, sp>>
+       /\ phase' = "asked" /\ UNCHANGED <<par, sp, dec>>
 
-Next == AddNode \/ Ask
+Next == AddNode \/ AddDeco \/ Ask
 Spec == Init /\ [][Next]_vars
 
 (* ---- the loops of fst.py, on pre-order numbered trees ---------------------- *)
 (* `for f in self.walk('loc', self_=False)` enumerates self+1 .. LastOf(self)   *)
+(* (decorators are the first children, so they directly follow their node)      *)
 LastOf(f) == MaxOf({n \in 1..N : Under(par, n, f)})
 
 RECURSIVE AlgInWalk(_, _, _)
@@ -57,14 +83,24 @@ RECURSIVE AlgCWalk(_, _, _, _)
 AlgCWalk(f, g, q, mode) ==
   IF g > LastOf(f) THEN f
   ELSE IF sp[g][2] <= q[1] THEN AlgCWalk(f, g + 1, q, mode)    \* ends at or before the start: continue
-  ELSE IF ~Covers(sp[g], q) THEN f
-  ELSE IF mode = "F" /\ sp[g] = q THEN f
+  ELSE IF sp[g][1] > q[1]                                      \* starts after the start of the rectangle ...
+       THEN (IF BStart(g) <= q[1] THEN AlgCWalk(f, g + 1, q, mode)   \* ... which is in g's decorators: they come next
+             ELSE f)
+  ELSE IF sp[g][2] < q[2] THEN f
+  ELSE IF sp[g] = q /\ mode = "F" THEN f
+  ELSE IF sp[g] = q /\ mode = "top" THEN g                     \* first exact match going down is the highest one
   ELSE AlgCWalk(g, g + 1, q, mode)
+
+RECURSIVE AlgCDecos(_, _, _, _)
 AlgC(f, q, mode) ==
-  IF ~Covers(sp[f], q) THEN 0
+  IF ~Covers(sp[f], q) THEN AlgCDecos(f, q, mode, Decos(f))     \* decorators are not part of our `loc`
   ELSE IF sp[f] = q /\ mode = "F" THEN 0
   ELSE IF sp[f] = q /\ mode = "top" THEN f
   ELSE AlgCWalk(f, f + 1, q, mode)
+AlgCDecos(f, q, mode, D) ==
+  IF D = {} THEN 0
+  ELSE LET d == MinOf(D)  a == AlgC(d, q, mode)
+       IN IF a # 0 THEN a ELSE AlgCDecos(f, q, mode, D \ {d})
 
 AlgLoc(f, q, top) ==
   LET c == AlgC(f, q, IF top THEN "top" ELSE "T")
@@ -80,40 +116,24 @@ Proper(q) == q[1] < q[2]
 Asked == phase = "asked"
 One(S) == Cardinality(S) <= 1
 NoZeroNodes == \A n \in 1..N : sp[n][1] < sp[n][2]
+NoDecos == \A n \in 1..N : ~dec[n]
 
 WellDefined ==
   Asked => /\ One(FindIn(sp, SN, r))
-           /\ FindIn(sp, SN, r) \subseteq FindInDecl(par, sp, SN, r)
-           /\ NoZeroNodes => FindInDecl(par, sp, SN, r) = FindIn(sp, SN, r)
+           /\ NoDecos => FindIn(sp, SN, r) \subseteq FindInDecl(par, sp, SN, r)
+           /\ NoDecos /\ NoZeroNodes => FindInDecl(par, sp, SN, r) = FindIn(sp, SN, r)
            /\ Proper(r) => /\ \A m \in {"T", "F", "top"} : One(FindContains(par, sp, SN, r, m))
                            /\ \A t \in BOOLEAN : One(FindLoc(par, sp, SN, r, t))
 
 (* an empty rectangle between two touching nodes has two lowest containers: the *)
-(* answer is then only required to be one of them (Agrees)                      *)
+(* answer is then only required to be one of the containing nodes (Agrees)      *)
 InRefines == Asked => Agrees(AlgIn(frm, r), FindIn(sp, SN, r))
 ContainsRefines ==
-  Asked => \A m \in {"T", "F"} :
+  Asked => \A m \in {"T", "F", "top"} :
      /\ Proper(r) => Agrees(AlgC(frm, r, m), FindContains(par, sp, SN, r, m))
      /\ Agrees(AlgC(frm, r, m), CovSet(sp, SN, r, m # "F"))     \* always: some containing node / None
 LocRefines ==
-  Asked =>
-    /\ Determined(sp, SN, r) => Agrees(AlgLoc(frm, r, FALSE), FindLoc(par, sp, SN, r, FALSE))
-    /\ NoZeroNodes => Agrees(AlgLoc(frm, r, FALSE), FindLocWeak(par, sp, SN, r, FALSE))
-
-LocWeakest == Asked => \A t \in BOOLEAN : Agrees(AlgLoc(frm, r, t), FindLocWeakest(sp, SN, r))
-ContainsTopWeak == Asked => Agrees(AlgC(frm, r, "top"), CovSet(sp, SN, r, TRUE))
-
-(* 'top' as implemented: the loop never returns an exact match early, so the    *)
-(* highest exact node is only returned when it is the node the search starts at *)
-TopDeviation ==
-  Asked /\ Proper(r) => LET E == ExactSet(sp, SN, r)
-               a == AlgC(frm, r, "top")
-           IN \/ Agrees(a, FindContains(par, sp, SN, r, "top"))
-              \/ /\ Cardinality(E) > 1 /\ frm \notin E /\ a \in Lowest(par, E)
-LocTopDeviation ==
-  Asked /\ Determined(sp, SN, r) =>
-     LET E == ExactSet(sp, SN, r)
-         a == AlgLoc(frm, r, TRUE)
-     IN \/ Agrees(a, FindLoc(par, sp, SN, r, TRUE))
-        \/ /\ Cardinality(E) > 1 /\ frm \notin E /\ a \in Lowest(par, E)
+  Asked => \A t \in BOOLEAN :
+    /\ Determined(sp, SN, r) => Agrees(AlgLoc(frm, r, t), FindLoc(par, sp, SN, r, t))
+    /\ Agrees(AlgLoc(frm, r, t), FindLocWeakest(sp, SN, r))
 =============================================================================
